@@ -16,7 +16,7 @@ ASSUMPTIONS = ['pv/core/x690.py implements X.690 correctly (self-tested on liter
 SHARDS = {'quick': (16, 300), 'thorough': (16, 6000)}
 BUDGET = {'quick': 100, 'thorough': 1500}
 MIN_NONTRIVIAL = {'quick': 500, 'thorough': 5000}
-CFG = {'long_str_pct': 5}
+CFG = {'long_str_pct': 5, 'huge_str_pct': 1}
 
 
 def shards(tier):
